@@ -1,6 +1,6 @@
 (* C08 - Restart equivalence: a state rebuilt from its block behaves identically.
    Pinned statements only; proofs in STF/Proofs/Block.v. *)
-From MelVerif Require Import STF.Model STF.Proofs.Block STF.Proofs.Frame.
+From MelVerif Require Import STF.Model STF.Proofs.Block STF.Proofs.Frame STF.Proofs.SealCounts STF.Proofs.History STF.Proofs.MiscHistory.
 Open Scope N_scope.
 
 (* from_block (to_block s) is s itself - hence indistinguishable under every continuation - whenever no tips
@@ -23,3 +23,17 @@ Print Assumptions C08_refuted_with_pending_tips.
 Theorem C08_action_clears_tips : forall SO s act s', seal SO s (Some act) = Ok s' -> s_tips s' = 0.
 Proof. exact seal_action_clears_tips. Qed.
 Print Assumptions C08_action_clears_tips.
+
+(* over whole histories ([hstep], [hist_ok], [Good]: Properties/C20.v): the model invariant [txs_keyed] is part of
+   C20's invariant, so every block of every history that is sealed with a proposer action restarts exactly - the
+   state rebuilt from the block's header and contents is the sealed state itself, hence behaves identically under
+   every continuation *)
+Theorem C08_every_block_sealed_with_an_action_restarts_exactly : forall SO ops s act sealed R h,
+  Good s -> hist_ok SO s ops ->
+  seal SO (fold_left (hstep SO) ops s) (Some act) = Ok sealed ->
+  reward_fresh SO (fold_left (hstep SO) ops s) ->
+  header_of SO R sealed = Ok h ->
+  from_block h (map snd (map_to_list (s_txs sealed))) (s_history sealed) (s_coins sealed) (s_counts sealed)
+             (s_pools sealed) (s_stakes sealed) = sealed.
+Proof. exact reachable_block_restarts_exactly. Qed.
+Print Assumptions C08_every_block_sealed_with_an_action_restarts_exactly.
